@@ -360,6 +360,7 @@ class _W:
         except Exception as e:
             ctx.fail("C16", "export-raises", f"{where}: to_string() raised {type(e).__name__}: {e}", exc=type(e).__name__)
         ctx.check(isinstance(s, bytes), "C16", "export-type", repr(type(s)))
+        ctx.log("state", where, s)
         self.check_text(s, model, where, "export")
 
     def check_text(self, s, model, where, what):
